@@ -5,7 +5,8 @@
    quantifier over SHEETS is discharged per generated sheet by running the checker between
    RowSem(sheet) and the implementation's output (translation validation). *)
 From Coq Require Import List NArith Bool.
-From RPFT Require Import Base.Sexp Base.SexpEq Flow.Lts Flow.Flow Flow.FlowFacts Flow.RowSem.
+From RPFT Require Import Base.Sexp Base.SexpEq Base.Result Gen.Tables Flow.Lts Flow.Flow Flow.FlowFacts Flow.RowSem
+     Comp.Compile Comp.CompileExamples Comp.CompileExampleFacts Comp.Refine Comp.RefineStep Comp.RefineFinal Comp.RefineFrag Comp.RefineExamples.
 Import ListNotations.
 
 (* the checker is sound for any label-matching relation (used with wildcard matching on
@@ -28,3 +29,63 @@ Theorem C02_checker_nonvacuous :
   bisim_check ex_flow1 ex_flow2 = true /\ bisim_check ex_flow1 ex_flow3 = false.
 Proof. exact bisim_nonvacuous. Qed.
 Print Assumptions C02_checker_nonvacuous.
+
+(* ------------------------------------------------------------------------------------------------------------
+   The compiler itself (model Comp/Compile.v, tied to the code by differential execution, see C01): FOR EVERY SHEET
+   OF THE FRAGMENT the compiled flow and the reference meaning of the rows (Flow/RowSem.v) have the same traces, in
+   both directions, labels matched up to the names the sheet does not fix (wildcards on the reference side).
+
+   The fragment (Comp/RefineStep.v: row_ok, decided by Comp/Refine.v: fragb): action rows, wait_for_response,
+   split_by_value, split_by_group, start_new_flow, call_webhook, transfer_airtime, go_to, no_op (forwarding and
+   decision), hard_exit, loose_exit, begin_block/end_block (nested); conditional edges from action rows (implicit
+   routers and waits), re-targeting, anonymous rows, blank `from`; the first row is a node row.
+   NOT in the fragment (what is missing for the full statement compile_refines_rowsem): named categories on edges
+   (condition_name), split_random rows, node names / given `_nodeId`s (merged rows).  For those the statement is
+   decided per sheet by the verified checker (translation validation, C02_sim_check_sound). *)
+Theorem C02_compile_refines_rowsem_partial : forall fresh,
+  (forall a b : nat, fresh a = fresh b -> a = b) -> (forall k, fresh k <> hard_exit_sentinel) ->
+  forall validate name rows f ref,
+  (forall us, validate us = None -> NoDup us) ->
+  Forall row_ok rows -> no_given rows -> starts_with_node rows ->
+  compile_with fresh validate name rows = Ok f -> rowsem nab (map cr_row rows) = Some ref ->
+  (forall t, traces ref t -> exists t', traces f t' /\ Forall2 (ematch sexp smatch) t t')
+  /\ (forall t, traces f t -> exists t', traces ref t' /\ Forall2 (ematch sexp (fun a b => smatch b a)) t t').
+Proof. exact compile_refines_rowsem_partial. Qed.
+Print Assumptions C02_compile_refines_rowsem_partial.
+
+(* the boolean test the harness evaluates on every generated sheet is sound for the hypotheses above *)
+Theorem C02_fragb_sound : forall rows, fragb rows = true -> Forall row_ok rows /\ no_given rows /\ starts_with_node rows.
+Proof. exact fragb_sound. Qed.
+Print Assumptions C02_fragb_sound.
+
+(* the executable supply, the validation of the code of this run *)
+Theorem C02_compile_refines_rowsem_std : forall name rows f ref,
+  compile_checks_node_uuids = true -> fragb rows = true ->
+  compile std_fresh name rows = Ok f -> rowsem nab (map cr_row rows) = Some ref ->
+  (forall t, traces ref t -> exists t', traces f t' /\ Forall2 (ematch sexp smatch) t t')
+  /\ (forall t, traces f t -> exists t', traces ref t' /\ Forall2 (ematch sexp (fun a b => smatch b a)) t t').
+Proof. exact compile_refines_rowsem_std. Qed.
+Print Assumptions C02_compile_refines_rowsem_std.
+
+(* non-vacuity: directed sheets of the harness lie in the fragment, compile (compiled nodes) and have a reference
+   meaning (reference nodes): an action row with conditional edges (implicit router: 6 vs 5 nodes), a go_to cycle,
+   no_op forwarding and a no_op decision, nested blocks with a hard exit, enter-flow / webhook / airtime outcomes,
+   hard and loose exits *)
+Example C02_refines_implicit_nonvacuous : refines_ex ex_implicit 6 5.
+Proof. exact refines_ex_implicit. Qed.
+Print Assumptions C02_refines_implicit_nonvacuous.
+Example C02_refines_goto_cycle_nonvacuous : refines_ex ex_goto_cycle 3 3.
+Proof. exact refines_ex_goto_cycle. Qed.
+Print Assumptions C02_refines_goto_cycle_nonvacuous.
+Example C02_refines_noop_nonvacuous : refines_ex ex_noop 9 9.
+Proof. exact refines_ex_noop. Qed.
+Print Assumptions C02_refines_noop_nonvacuous.
+Example C02_refines_blocks_nonvacuous : refines_ex ex_blocks 8 8.
+Proof. exact refines_ex_blocks. Qed.
+Print Assumptions C02_refines_blocks_nonvacuous.
+Example C02_refines_outcome_nonvacuous : refines_ex ex_outcome 9 9.
+Proof. exact refines_ex_outcome. Qed.
+Print Assumptions C02_refines_outcome_nonvacuous.
+Example C02_refines_exits_nonvacuous : refines_ex ex_exits 3 3.
+Proof. exact refines_ex_exits. Qed.
+Print Assumptions C02_refines_exits_nonvacuous.
